@@ -2,6 +2,7 @@
 From Coq Require Import List String Ascii ZArith. Import ListNotations.
 From Coq Require Import List Bool.
 From SV Require Import Lib.Str Model.Types Model.Naming Model.Api Model.Back Proofs.GenProofs.
+From SV Require Import Model.FrontSmall Model.View Model.Front Proofs.FrontProofs.
 
 (* a method whose is_public flag is off is never rendered in its own class *)
 Theorem C04_private_method_not_rendered : forall m already, f_public m = false -> method_skipped false already m = true.
@@ -24,7 +25,32 @@ Theorem C04_no_private_superclass_named : forall classes rmap inline sups s r s'
   super_loop classes rmap inline sups [] [] s = Ok (r, s') -> Forall (fun n => is_internal n = false) (fst r).
 Proof. exact super_loop_no_private. Qed.
 
+(* ANALYZER SIDE: the is_public flag of the API object (what the JSON marks as non-public) *)
+Theorem C04_front_private_name : forall st name qname parent rest,
+  vs_stack st = parent :: rest -> check_publicity_in_reexports st name qname parent = false ->
+  is_internal name = true -> ends_with (K"__") name = false ->
+  forall b, is_public st name qname = Ok b -> b = false.
+Proof. exact private_name_not_public. Qed.
+Theorem C04_front_member_of_private_class : forall st name qname c rest,
+  vs_stack st = FClass c :: rest -> c_public c = false ->
+  check_publicity_in_reexports st name qname (FClass c) = false ->
+  (str_eqb name (K"__init__") = true \/ is_internal name = false) ->
+  forall b, is_public st name qname = Ok b -> b = false.
+Proof. exact member_of_private_class_not_public. Qed.
+Theorem C04_front_module_level : forall st name qname m rest,
+  vs_stack st = FModule m :: rest -> is_internal name = false ->
+  check_publicity_in_reexports st name qname (FModule m) = false ->
+  is_public st name qname = Ok (forallb (fun it => negb (is_internal it)) (removelast (split_dot qname))).
+Proof. exact module_level_publicity. Qed.
+Theorem C04_front_reexport_only_publishes : forall st name qname parent rest,
+  vs_stack st = parent :: rest -> check_publicity_in_reexports st name qname parent = true ->
+  match parent with FModule _ | FClass _ => is_public st name qname = Ok true | _ => True end.
+Proof. exact reexport_only_publishes. Qed.
 Print Assumptions C04_private_method_not_rendered.
 Print Assumptions C04_private_named_method_never_rendered.
 Print Assumptions C04_only_public_attributes.
 Print Assumptions C04_no_private_superclass_named.
+Print Assumptions C04_front_private_name.
+Print Assumptions C04_front_member_of_private_class.
+Print Assumptions C04_front_module_level.
+Print Assumptions C04_front_reexport_only_publishes.
